@@ -7,7 +7,7 @@ from .common import *
 
 META = {
     'title': 'Skein: tweak field layout and type codes, configuration block, stage order, UBI chaining/flags/position, output counter mode with a fresh UBI per block, tree hashing',
-    'expected_min': 25,
+    'expected_min': 204,
     'explanation': 'Every function of skein.py (and Chain of mode.py) is normalised and compared with a restatement of Skein 1.3; the Tweak property '
                    'getters/setters are compared field by field with the specified bit ranges and the type-code table.',
     'trusted_base': ['python ast', 'sa.terms normaliser', 'Skein 1.3 literals in sa.spec.consts', 'Threefish (C02), Bits slice assignment (C08)'],
